@@ -509,3 +509,34 @@ Print Assumptions C07_atoms_relex.
 Example C07_atoms_chunks_ascii : chunks "it's ""quoted""".
 Proof. apply ascii_chunks. vm_compute. reflexivity. Qed.
 End AtomLayer.
+
+(* ================================================================ statement sequences (proofs/FmtSeq.v) *)
+(* A line break, blank lines and comment-only lines do not end an expression (grammar.pest: NEWLINE =
+   inline_comment? ~ plain_newline inside infix_usage), so a statement written after another one must not
+   start with "-".  For EVERY oracle record (whatever format_expr prints), every program: in the model of
+   the `blots --format` loop (Formatter.v cli_stmt / format_cli, tied to the binary's output text by the
+   SEQUENCES stream) no expression statement after the first one written contributes a text that starts
+   with "-" — comment statements count as written statements. *)
+Require Blots.proofs.FmtSeq.
+Theorem C07_cli_statements_not_minus : forall O s rest,
+  Formatter.format_cli O (s :: rest) =
+    (Formatter.cli_stmt O true s ++ List.concat (List.map (Formatter.cli_stmt O false) rest))%list /\
+  Forall (fun t => Blots.proofs.FmtSeq.is_expr_stmt t = true ->
+                   Formatter.starts_with_minus (Formatter.render (Formatter.cli_stmt O false t)) = false) rest.
+Proof. exact Blots.proofs.FmtSeq.cli_statements_not_minus. Qed.
+Check C07_cli_statements_not_minus : forall O s rest,
+  Formatter.format_cli O (s :: rest) =
+    (Formatter.cli_stmt O true s ++ List.concat (List.map (Formatter.cli_stmt O false) rest))%list /\
+  Forall (fun t => Blots.proofs.FmtSeq.is_expr_stmt t = true ->
+                   Formatter.starts_with_minus (Formatter.render (Formatter.cli_stmt O false t)) = false) rest.
+Print Assumptions C07_cli_statements_not_minus.
+
+(* the same for the format_blots loop (blots-wasm), which protects statements of every kind *)
+Theorem C07_lib_statements_not_minus : forall O mw s,
+  Formatter.starts_with_minus (Formatter.render (fst (fst (Formatter.lib_stmt O mw false s)))) = false.
+Proof.
+  intros O mw s. apply Blots.proofs.FmtSeq.minus_of_dlead. apply Blots.proofs.FmtSeq.lib_statements_not_minus.
+Qed.
+Check C07_lib_statements_not_minus : forall O mw s,
+  Formatter.starts_with_minus (Formatter.render (fst (fst (Formatter.lib_stmt O mw false s)))) = false.
+Print Assumptions C07_lib_statements_not_minus.
